@@ -85,6 +85,10 @@ var c19Templates = []c19t{
 	{"join-consumer", "SELECT * FROM t x JOIN u y ON x.b = y.b WHERE FAULT(`x.a`) > 0", false},
 	{"join-select", "SELECT FAULT(`y.c`) AS c FROM t x LEFT JOIN u y ON x.b = y.b", false},
 	{"join-derived-side", "SELECT * FROM (SELECT FAULT(b) AS b FROM t) x JOIN u y ON x.b = y.b", false},
+	{"join-derived-right-side", "SELECT * FROM u y JOIN (SELECT FAULT(b) AS b FROM t) x ON x.b = y.b", false},
+	{"left-join-derived-right-side", "SELECT * FROM u y LEFT JOIN (SELECT FAULT(b) AS b FROM t) x ON x.b = y.b", false},
+	{"join-cte-right-side", "WITH c AS (SELECT FAULT(b) AS b FROM t) SELECT * FROM u y JOIN c x ON x.b = y.b", false},
+	{"join-both-derived", "SELECT * FROM (SELECT b FROM u) y JOIN (SELECT FAULT(b) AS b FROM t) x ON x.b = y.b", false},
 	{"nested-from", "SELECT FAULT(a) AS a FROM m", false},
 	{"join-on", "SELECT * FROM t x JOIN u y ON x.a >= y.c AND FAULTB(y.c)", false},
 	{"join-on-left", "SELECT * FROM t x LEFT JOIN u y ON FAULTB(x.a) AND x.a >= y.c", false},
@@ -293,6 +297,13 @@ func (p *c19) RunCase(i int) *core.CaseResult {
 				r.Outcomes = append(r.Outcomes, o.Status())
 				mustFail(o, t.sql, tbl, -attempt, doc)
 			}
+			// the same Query object executed again: a query that fails by itself fails every time
+			if f1, f2 := execTwice(p.doc(tbl), t.sql, 0); f2 != nil {
+				r.Execs += 2
+				if f1.Err != nil && f2.Err == nil && f2.Panic == "" {
+					r.Fail("C19|"+t.clause+"|second-exec-succeeds", fmt.Sprintf("%s on %s: Exec failed (%v), Exec of the same Query object again returned %s", t.sql, gq.Render(p.doc(tbl)["t"]), f1.Err, gq.Render(f2.Rows)), map[string]any{"sql": t.sql, "doc": p.doc(tbl)})
+				}
+			}
 		default:
 			doc := p.doc(tbl)
 			o := run(doc, t.sql, 0)
@@ -314,6 +325,13 @@ func (p *c19) RunCase(i int) *core.CaseResult {
 				mustFail(o, t.sql, tbl, k, doc)
 				if strings.Contains(t.sql, " PARALLEL ") {
 					p.schedules(r, t, tbl, k)
+				}
+				// the same Query object: Exec with the failure, then Exec without it
+				if f1, f2 := execTwice(p.doc(tbl), t.sql, k); f2 != nil && f1.Err != nil && !f1.InNew {
+					r.Execs += 2
+					if got, want := outcome(f2), outcome(o0); got != want && !p.kinds(t).bag && !strings.Contains(t.sql, "ONCE.") {
+						r.Fail("C19|"+t.clause+"|second-exec-differs", fmt.Sprintf("%s on %s: Exec failed at invocation %d; Exec of the same Query object again, without fault, returned %s, a fresh query returns %s", t.sql, gq.Render(p.doc(tbl)["t"]), k, got, want), map[string]any{"sql": t.sql, "fault_at": k, "doc": p.doc(tbl)})
+					}
 				}
 				// the failed query's own fault-free twin, on the same document
 				twin := run(doc, t.sql, 0)
@@ -367,6 +385,46 @@ func (p *c19) schedules(r *core.CaseResult, t *c19t, tbl []int, k int) {
 	}
 }
 
+// execTwice builds the query once and executes the same Query object twice: the first time with the
+// fault at invocation `at` (0: none), the second time without any fault.
+func execTwice(doc map[string]any, sql string, at int) (first, second *gq.Out) {
+	first, second = &gq.Out{}, &gq.Out{}
+	vrt.Run(gq.Seq, nil, func() {
+		resetFaults(at)
+		hOnceCounter = 0
+		var q *genql.Query
+		func() {
+			defer func() {
+				if rec := recover(); rec != nil {
+					first.Panic = fmt.Sprint(rec)
+				}
+			}()
+			var err error
+			q, err = genql.New(doc, sql, genql.WithVars(map[string]any{}))
+			if err != nil {
+				first.Err, first.InNew = err, true
+				q = nil
+				return
+			}
+			first.Rows, first.Err = q.Exec()
+		}()
+		if q == nil || first.Panic != "" {
+			second = nil
+			return
+		}
+		resetFaults(0)
+		func() {
+			defer func() {
+				if rec := recover(); rec != nil {
+					second.Panic = fmt.Sprint(rec)
+				}
+			}()
+			second.Rows, second.Err = q.Exec()
+		}()
+	})
+	return
+}
+
 type c19kind struct{ bag bool }
 
 // kinds: joins return a multiset (the row order is not fixed), so the twin comparison is skipped for them
@@ -376,7 +434,7 @@ func (p *c19) kinds(t *c19t) c19kind {
 
 func (p *c19) Meta() core.Meta {
 	return core.Meta{
-		Rule:        "one case per template: 69 templates with the fault point FAULT(x) / RAISE_WHEN in every clause position (WHERE connectives and operators, select list incl. star / arithmetic / CASE / function arguments / ONCE, DISTINCT, ORDER BY, LIMIT, HAVING, grouped and whole-table aggregates, CTE body / consumer / chain / double reference, derived table and consumer, select-list / IN / EXISTS subqueries incl. <- and nested queries that fail while being built (derived table, CTE, union branch inside a subquery), AWAIT-deferred evaluation in the select list of the query / a derived table / a CTE / a union branch / a nested FROM, union branches, join consumers, derived join sides and join ON expressions for every join kind - for PARALLEL joins with an unmatched left key and additionally under every completion order of the per-key goroutines and every key iteration order within 1 (thorough 2) deviations -, nested FROM) and 28 templates that fail by themselves (each run three times) (type errors in every clause incl. join ON, GROUP BY / ORDER BY of non-columns, unknown functions, arity, out-of-range indices, wrong shapes, non-array FROM, non-integer LIMIT), on every table of 1..2 (thorough 3) rows over 3 archetypes; each fault template is run fault-free to count N invocations and then once per k = 1..N. Oracle: New/Exec report an error and return no rows; then 6 follow-up queries on the same document object equal their results on a pristine copy. non-trivial = a failure was injected and surfaced",
+		Rule:        "one case per template: 73 templates with the fault point FAULT(x) / RAISE_WHEN in every clause position (WHERE connectives and operators, select list incl. star / arithmetic / CASE / function arguments / ONCE, DISTINCT, ORDER BY, LIMIT, HAVING, grouped and whole-table aggregates, CTE body / consumer / chain / double reference, derived table and consumer, select-list / IN / EXISTS subqueries incl. <- and nested queries that fail while being built (derived table, CTE, union branch inside a subquery), AWAIT-deferred evaluation in the select list of the query / a derived table / a CTE / a union branch / a nested FROM, union branches, join consumers, derived join sides (left and right operand) and join ON expressions for every join kind - for PARALLEL joins with an unmatched left key and additionally under every completion order of the per-key goroutines and every key iteration order within 1 (thorough 2) deviations -, nested FROM) and 28 templates that fail by themselves (each run three times) (type errors in every clause incl. join ON, GROUP BY / ORDER BY of non-columns, unknown functions, arity, out-of-range indices, wrong shapes, non-array FROM, non-integer LIMIT), on every table of 1..2 (thorough 3) rows over 3 archetypes; each fault template is run fault-free to count N invocations and then once per k = 1..N. Oracle: New/Exec report an error and return no rows; then 6 follow-up queries on the same document object equal their results on a pristine copy; the failed Query object itself, executed again without the fault, returns what a fresh query returns (a self-failing one fails again). non-trivial = a failure was injected and surfaced",
 		Assumptions: []string{"only synchronously evaluated steps are claimed (ASYNC / SPIN failures go to the UnReportedErrors handler)", "the type error of t2 strikes on the last row only, so a partial result would be visible"},
 		Bounds:      map[string]any{"templates": len(c19Templates), "tables": len(p.tables), "followups": len(c19Followups)},
 		Exhaustive:  true,
